@@ -963,6 +963,10 @@ for _n, _k in list(AGGS.items()) + [("all", [])]:
 from pyvc.api import UNITS  # noqa: E402
 
 for _u in list(UNITS.get("C15", [])):
+    if _u["name"] == "unit_intervals.formula":
+        # C03 at the unit level under the gaussian estimator: both bounds floored at the counted votes, whole numbers
+        if not any(x["name"] == "gaussian.unit_intervals" for x in UNITS.get("C03", [])):
+            UNITS.setdefault("C03", []).append(dict(_u, prop="C03", name="gaussian.unit_intervals"))
     if _u["name"].startswith("aggregate_intervals."):
         for _p in ("C02", "C03", "C10"):
             if not any(x["name"] == "gaussian." + _u["name"] for x in UNITS.get(_p, [])):
